@@ -1,6 +1,6 @@
 //! C03 — no network input can crash or hang an endpoint (layer A: HalfConnection; layer B: World).
 //!
-//! Layer A: a victim `HalfConnection` (endpoint 0) talks to an honest peer (endpoint 1) through
+//! Three case kinds. Honest: long histories (250 quick / 600 thorough ticks) of honest traffic under per-frame faults with no hostile frame at all. Layer A: a victim `HalfConnection` (endpoint 0) talks to an honest peer (endpoint 1) through
 //! SimPair. The attacker sits at the peer's position on the wire: it sees everything the victim
 //! emits (ids, nonces, window bases) and hands the victim structured frames whose fields are drawn
 //! relative to that live state, raw bytes, and mutated genuine frames, interleaved with honest
@@ -360,7 +360,15 @@ impl Check for C03 {
             sc.ticks.clear();
             Case { sc, ops: Vec::new(), world: Some(w) }
         });
-        prop_oneof![3 => layer_a, 2 => layer_b].boxed()
+        // long histories of honest but lossy traffic (no hostile frames at all): state that only builds up over
+        // many round trips - loss histories, reorder buffers, rate-controller phases - is part of what "any timing
+        // of step() and any network fate" can reach
+        let h = GenParams { max_ticks: tier.pick(250, 600), max_sends: 6, max_frags: 3, tail: false, ..GenParams::default() };
+        let honest = scenario_strategy(&h).prop_map(|mut sc| {
+            let ops = std::mem::take(&mut sc.ticks).into_iter().map(HOp::Tick).collect();
+            Case { sc, ops, world: None }
+        });
+        prop_oneof![6 => layer_a, 4 => layer_b, 1 => honest].boxed()
     }
 
     fn cases(&self, tier: Tier) -> u64 {
@@ -390,7 +398,7 @@ impl Check for C03 {
     }
 
     fn rule(&self) -> String {
-        "layer A case = honest SimPair configuration + op sequence mixing honest ticks (sends in all modes, step/flush at arbitrary spacing incl. 0) with hostile input handed to the victim: CRC-valid data / ack / sync frames whose ids are drawn relative to the victim's live window state (base, base+W, +-1, +-W, 2^20, 2^31, 2^32-1, random), datagrams with arbitrary channel / parent leads / fragment ids / counts / lengths, ack groups with correct, flipped or constant nonce, raw bytes, mutated and replayed genuine frames. Non-trivial = at least one hostile frame passed Frame::read (reached the connection logic). Distinct = distinct serialised case.".into()
+        "honest case (1 in 11) = a long history (250 quick / 600 thorough ticks) of honest traffic under per-frame faults, no hostile frame at all. layer A case = honest SimPair configuration + op sequence mixing honest ticks (sends in all modes, step/flush at arbitrary spacing incl. 0) with hostile input handed to the victim: CRC-valid data / ack / sync frames whose ids are drawn relative to the victim's live window state (base, base+W, +-1, +-W, 2^20, 2^31, 2^32-1, random), datagrams with arbitrary channel / parent leads / fragment ids / counts / lengths, ack groups with correct, flipped or constant nonce, raw bytes, mutated and replayed genuine frames. Non-trivial = at least one hostile frame passed Frame::read (reached the connection logic). Distinct = distinct serialised case.".into()
     }
 
     fn assumptions(&self) -> Vec<String> {
